@@ -1112,11 +1112,24 @@ where
         remote: NodeId,
         result: Result<fetch::FetchResult, FetchError>,
     ) {
+        // The result of a fetch that was cancelled (eg. because the peer disconnected) can still
+        // arrive later, when another fetch of the same repository is ongoing with another peer.
+        // It must not be taken for the result of that fetch.
+        match self.fetching.get(&rid) {
+            Some(fetching) if fetching.from != remote => {
+                warn!(
+                    target: "service",
+                    "Ignoring stale fetch result for {rid} from {remote}: currently fetching from {}",
+                    fetching.from
+                );
+                return;
+            }
+            _ => {}
+        }
         let Some(fetching) = self.fetching.remove(&rid) else {
             error!(target: "service", "Received unexpected fetch result for {rid}, from {remote}");
             return;
         };
-        debug_assert_eq!(fetching.from, remote);
 
         if let Some(s) = self.sessions.get_mut(&remote) {
             // Mark this RID as fetched for this session.
